@@ -101,22 +101,41 @@ Proof.
 Qed.
 
 (* ------------------------------------------------------------------ the power-flow side *)
+Lemma bus_is_not_oos n b : bus_is n b = true -> bus_oos n b = false.
+Proof. unfold bus_oos. intros ->. apply andb_false_r. Qed.
+
 Section PF.
 Variable n : net.
 Variable rp : nat -> nat.
 Hypothesis Hrp : forall a b, rp a = rp b <-> upath (fuse_edges n) a b.
+Hypothesis Hidem : forall a, rp (rp a) = rp a.
 
 Notation SP := (SuppliedPF n).
 
 Lemma sp_link u v : link_pf n u v -> (SP u <-> SP v).
 Proof. intros H. split; intros S; eapply SB_link; eauto. Qed.
 
-Lemma fuse_edge_link u v : In (u, v) (fuse_edges n) -> link_pf n u v.
+Lemma fuse_edge_is u v : In (u, v) (fuse_edges n) -> bus_is n u = true /\ bus_is n v = true /\ link_pf n u v.
 Proof.
   unfold fuse_edges, fuse_edges_of. intros H. apply in_flat_map in H. destruct H as [s [I H]].
   destruct (fuses n s) eqn:F; [|contradiction]. destruct H as [H|[]]. inversion H; subst.
   unfold fuses in F. repeat (apply andb_prop in F; destruct F as [F ?]).
-  apply LP_sw; auto. destruct (s_et s); simpl in *; auto; discriminate.
+  repeat split; auto. apply LP_sw; auto. destruct (s_et s); simpl in *; auto; discriminate.
+Qed.
+Lemma fuse_edge_link u v : In (u, v) (fuse_edges n) -> link_pf n u v.
+Proof. intros H. now apply fuse_edge_is in H. Qed.
+
+(* fused buses are in service: a class with more than one member consists of in-service buses *)
+Lemma fuse_path_is a b : upath (fuse_edges n) a b -> a = b \/ (bus_is n a = true /\ bus_is n b = true).
+Proof.
+  intros H. induction H as [x y E| |x y z _ IH1 _ IH2]; auto.
+  - right. apply sym_In in E. destruct E as [E|E]; apply fuse_edge_is in E; tauto.
+  - destruct IH1 as [->|[A B]]; auto. destruct IH2 as [<-|[C D]]; auto.
+Qed.
+Lemma oos_rp a : bus_oos n (rp a) = bus_oos n a.
+Proof.
+  assert (U : upath (fuse_edges n) (rp a) a) by (apply Hrp; apply Hidem).
+  destruct (fuse_path_is _ _ U) as [->|[A B]]; auto. now rewrite !bus_is_not_oos.
 Qed.
 
 Lemma sp_class a b : rp a = rp b -> SP a -> SP b.
@@ -130,7 +149,8 @@ Definition InvB (r : nat) : Prop := forall b, rp b = r -> SP b.
 Definition InvL (x : lnode) : Prop :=
   match x with
   | NB r => InvB r
-  | NT3 j => exists t s, In (j, t) (enum (trafo3ws n)) /\ t_is t = true /\ s < 3 /\ t3_open_pf n t s = false /\ SP (t3_bus t s)
+  | NT3 j => exists t s, In (j, t) (enum (trafo3ws n)) /\ t_is t = true /\ s < 3 /\ t3_open_pf n t s = false /\
+                         bus_oos n (t3_bus t s) = false /\ SP (t3_bus t s)
   | NXW j => forall x, In (j, x) (enum (xwards n)) -> SP (x_bus x)
   end.
 Definition InvN (x : node) : Prop :=
@@ -147,68 +167,62 @@ Proof.
   - apply (proj2 (sp_link u v K)); auto.
 Qed.
 
-Lemma mk_pair2_inv j fl tl fd td :
-  (fd = None -> td = None -> (InvL fl <-> InvL tl)) ->
-  (InvN (fst (mk_pair2 j fl tl fd td)) <-> InvN (snd (mk_pair2 j fl tl fd td))).
-Proof.
-  intros H. unfold mk_pair2. destruct fd as [[k p]|], td as [[k' p']|]; simpl; try tauto; auto.
-Qed.
-
 Lemma line_live l : In l (lines n) -> r_is l = true -> line_dead n l 0 = None -> line_dead n l 1 = None ->
-  link_pf n (r_f l) (r_t l).
+  bus_oos n (r_f l) = false -> bus_oos n (r_t l) = false -> link_pf n (r_f l) (r_t l).
 Proof.
-  unfold line_dead, line_oos. simpl. intros I S.
-  rewrite S. simpl.
-  destruct (bus_oos n (r_f l)) eqn:A, (bus_oos n (r_t l)) eqn:B; simpl; try discriminate;
-  destruct (line_sw n l 0) eqn:E0; try discriminate; destruct (line_sw n l 1) eqn:E1; try discriminate; intros _ _;
-  apply LP_line; auto; try (apply line_sw_none; auto); congruence.
+  unfold line_dead, line_oos. simpl. intros I S. rewrite S. simpl. intros A B Of Ot. rewrite Of, Ot in *. simpl in *.
+  destruct (line_sw n l 0) eqn:E0; try discriminate; destruct (line_sw n l 1) eqn:E1; try discriminate.
+  apply LP_line; auto. apply line_sw_none; auto.
 Qed.
 
 Lemma trafo_live t : In t (trafos n) -> r_is t = true ->
   option_map (fun p => (1, p)) (trafo_sw n t 0) = None -> option_map (fun p => (1, p)) (trafo_sw n t 1) = None ->
-  link_pf n (r_f t) (r_t t).
+  bus_oos n (r_f t) = false -> bus_oos n (r_t t) = false -> link_pf n (r_f t) (r_t t).
 Proof.
-  intros I S A B. destruct (trafo_sw n t 0) eqn:E0; [discriminate|]. destruct (trafo_sw n t 1) eqn:E1; [discriminate|].
+  intros I S A B Of Ot. destruct (trafo_sw n t 0) eqn:E0; [discriminate|]. destruct (trafo_sw n t 1) eqn:E1; [discriminate|].
   apply LP_trafo; auto. apply trafo_sw_none; auto.
 Qed.
 
-Lemma t3_edge_inv j t side : In (j, t) (enum (trafo3ws n)) -> t_is t = true -> side < 3 ->
-  (InvN (fst (t3_ends rp n j t side)) <-> InvN (snd (t3_ends rp n j t side))).
+(* a two-terminal branch built by mk_pair2 whose ends are not NONE rows *)
+Lemma pair_inv j u v fd td a b :
+  mk_pair2 j (NB (rp u)) (NB (rp v)) fd td = (a, b) -> none_row n a = false -> none_row n b = false ->
+  (fd = None -> td = None -> bus_oos n u = false -> bus_oos n v = false -> link_pf n u v) -> (InvN a <-> InvN b).
 Proof.
-  intros I S Hs.
-  assert (B : t3_sw n t side = None -> (InvB (rp (t3_bus t side)) <-> InvL (NT3 j))).
-  { intros E. apply t3_sw_none in E. split.
-    - intros H. exists t, side. repeat split; auto; try (now apply invB_at).
-    - intros [t0 [s0 [I0 [S0 [L0 [O0 P0]]]]]]. assert (t0 = t) by (eapply enum_fun; eauto). subst t0.
-      apply invB_of. eapply SB_link; [exact P0| |exact Logic.I]. left.
-      apply LP_t3; auto. eapply enum_In_snd; eauto. }
-  unfold t3_ends. destruct (t3_sw n t side) eqn:E; destruct (Nat.eqb side 0); simpl; try tauto;
-    try (apply B; auto); try (symmetry; apply B; auto).
+  unfold mk_pair2. intros H Na Nb K. destruct fd as [[k p]|], td as [[k' p']|]; inversion H; subst; simpl; try tauto.
+  simpl in Na, Nb. rewrite oos_rp in Na, Nb. apply link_inv. now apply K.
 Qed.
 
-(* every status-1 branch joins two rows with equivalent invariants *)
+Lemma t3_edge_inv j t side a b : In (j, t) (enum (trafo3ws n)) -> t_is t = true -> side < 3 ->
+  t3_ends rp n j t side = (a, b) -> none_row n a = false -> none_row n b = false -> (InvN a <-> InvN b).
+Proof.
+  intros I S Hs H Na Nb.
+  assert (B : t3_sw n t side = None -> bus_oos n (t3_bus t side) = false -> (InvB (rp (t3_bus t side)) <-> InvL (NT3 j))).
+  { intros E O. apply t3_sw_none in E. split.
+    - intros H0. exists t, side. repeat split; auto; try (now apply invB_at).
+    - intros [t0 [s0 [I0 [S0 [L0 [O0 [N0 P0]]]]]]]. assert (t0 = t) by (eapply enum_fun; eauto). subst t0.
+      apply invB_of. eapply SB_link; [exact P0| |exact Logic.I]. left.
+      apply LP_t3; auto. eapply enum_In_snd; eauto. }
+  unfold t3_ends in H. destruct (t3_sw n t side) eqn:E; destruct (Nat.eqb side 0); inversion H; subst; simpl; try tauto;
+    simpl in Na, Nb; try rewrite oos_rp in Na; try rewrite oos_rp in Nb; try (apply B; auto); try (symmetry; apply B; auto).
+Qed.
+
+(* every branch of the search graph joins two rows with equivalent invariants *)
 Lemma edge_inv a b : In (a, b) (ppc_edges rp n) -> (InvN a <-> InvN b).
 Proof.
-  unfold ppc_edges. intros H.
+  unfold ppc_edges. intros H. apply filter_In in H. destruct H as [H N]. simpl in N.
+  apply andb_prop in N. destruct N as [Na Nb]. apply negb_true_iff in Na, Nb.
+  unfold ppc_edges_old in H.
   repeat (apply in_app_or in H; destruct H as [H|H]).
   - apply in_flat_map in H. destruct H as [[j l] [I H]]. simpl in H. destruct (r_is l) eqn:S; [|contradiction].
-    destruct H as [H|[]]. unfold line_ends in H.
-    pose proof (mk_pair2_inv j (NB (rp (r_f l))) (NB (rp (r_t l))) (line_dead n l 0) (line_dead n l 1)) as M.
-    rewrite H in M. simpl in M. apply M. intros A B. simpl. apply link_inv. apply line_live; auto.
-    eapply enum_In_snd; eauto.
+    destruct H as [H|[]]. unfold line_ends in H. apply (pair_inv j (r_f l) (r_t l) _ _ a b H Na Nb).
+    intros A B Of Ot. apply line_live; auto. eapply enum_In_snd; eauto.
   - apply in_flat_map in H. destruct H as [[j t] [I H]]. simpl in H. destruct (r_is t) eqn:S; [|contradiction].
-    destruct H as [H|[]]. unfold trafo_ends in H.
-    pose proof (mk_pair2_inv j (NB (rp (r_f t))) (NB (rp (r_t t)))
-                  (option_map (fun p => (1, p)) (trafo_sw n t 0)) (option_map (fun p => (1, p)) (trafo_sw n t 1))) as M.
-    rewrite H in M. simpl in M. apply M. intros A B. simpl. apply link_inv. apply trafo_live; auto.
-    eapply enum_In_snd; eauto.
+    destruct H as [H|[]]. unfold trafo_ends in H. apply (pair_inv j (r_f t) (r_t t) _ _ a b H Na Nb).
+    intros A B Of Ot. apply trafo_live; auto. eapply enum_In_snd; eauto.
   - apply in_flat_map in H. destruct H as [[j t] [I H]]. simpl in H. destruct (t_is t) eqn:S; [|contradiction].
-    destruct H as [H|[H|[H|[]]]].
-    + pose proof (t3_edge_inv j t 0 I S) as M. rewrite H in M. simpl in M. apply M. lia.
-    + pose proof (t3_edge_inv j t 1 I S) as M. rewrite H in M. simpl in M. apply M. lia.
-    + pose proof (t3_edge_inv j t 2 I S) as M. rewrite H in M. simpl in M. apply M. lia.
+    destruct H as [H|[H|[H|[]]]]; [apply (t3_edge_inv j t 0 a b I S)|apply (t3_edge_inv j t 1 a b I S)|apply (t3_edge_inv j t 2 a b I S)]; auto; lia.
   - apply in_flat_map in H. destruct H as [i [I H]]. destruct (r_is i) eqn:S; [|contradiction].
-    destruct H as [H|[]]. inversion H; subst. simpl. apply link_inv. now apply LP_imp.
+    destruct H as [H|[]]. inversion H; subst. simpl in *. rewrite oos_rp in Na, Nb. apply link_inv. now apply LP_imp.
   - apply in_flat_map in H. destruct H as [[j x] [I H]]. simpl in H.
     destruct (x_is x && bus_is n (x_bus x)) eqn:S; [|contradiction].
     destruct H as [H|[]]. inversion H; subst. simpl. split.
@@ -236,9 +250,10 @@ Proof.
 Qed.
 
 (* ---- completeness: every SuppliedPF bus has a reached row *)
-Lemma in_edges_line j l : In (j, l) (enum (lines n)) -> r_is l = true -> In (line_ends rp n j l) (ppc_edges rp n).
+Lemma keep_edge u v x y : In (x, y) (ppc_edges_old rp n) -> x = L (NB (rp u)) -> y = L (NB (rp v)) ->
+  bus_oos n u = false -> bus_oos n v = false -> In (x, y) (ppc_edges rp n).
 Proof.
-  intros I S. unfold ppc_edges. apply in_or_app. left. apply in_flat_map. exists (j, l). split; auto. simpl. rewrite S. now left.
+  intros I -> -> Ou Ov. unfold ppc_edges. apply filter_In. split; auto. simpl. now rewrite !oos_rp, Ou, Ov.
 Qed.
 
 Lemma link_path u v : link_pf n u v -> upath (ppc_edges rp n) (L (NB (rp u))) (L (NB (rp v))).
@@ -247,29 +262,36 @@ Proof.
   - destruct (enum_In_ex _ _ _ H) as [j J]. apply upath_edge.
     assert (E : line_ends rp n j l = (L (NB (rp (r_f l))), L (NB (rp (r_t l))))).
     { apply line_sw_none in H1. destruct H1 as [A B]. unfold line_ends, line_dead, line_oos. simpl.
-      rewrite A, B, H0, H2. destruct (bus_oos n (r_t l)); reflexivity. }
-    rewrite <- E. now apply in_edges_line.
+      rewrite A, B, H0, H2, H3. reflexivity. }
+    eapply keep_edge; eauto. rewrite <- E. unfold ppc_edges_old. apply in_or_app. left.
+    apply in_flat_map. exists (j, l). split; auto. simpl. rewrite H0. now left.
   - destruct (enum_In_ex _ _ _ H) as [j J]. apply upath_edge.
     assert (E : trafo_ends rp n j t = (L (NB (rp (r_f t))), L (NB (rp (r_t t))))).
     { apply trafo_sw_none in H1. destruct H1 as [A B]. unfold trafo_ends. rewrite A, B. reflexivity. }
-    rewrite <- E. unfold ppc_edges. apply in_or_app. right. apply in_or_app. left.
+    eapply keep_edge; eauto. rewrite <- E. unfold ppc_edges_old. apply in_or_app. right. apply in_or_app. left.
     apply in_flat_map. exists (j, t). split; auto. simpl. rewrite H0. now left.
-  - apply upath_edge. unfold ppc_edges. do 3 (apply in_or_app; right). apply in_or_app. left.
+  - apply upath_edge. eapply keep_edge; eauto. unfold ppc_edges_old. do 3 (apply in_or_app; right). apply in_or_app. left.
     apply in_flat_map. exists i. split; auto. rewrite H0. now left.
   - destruct (enum_In_ex _ _ _ H) as [j J].
-    assert (W : forall s, s < 3 -> t3_open_pf n t s = false ->
+    assert (W : forall s, s < 3 -> t3_open_pf n t s = false -> bus_oos n (t3_bus t s) = false ->
                 upath (ppc_edges rp n) (L (NB (rp (t3_bus t s)))) (L (NT3 j))).
-    { intros s Hs O. apply t3_sw_none in O.
-      assert (I3 : In (t3_ends rp n j t s) (ppc_edges rp n)).
-      { unfold ppc_edges. do 2 (apply in_or_app; right). apply in_or_app. left.
+    { intros s Hs O Oo. apply t3_sw_none in O.
+      assert (I3 : In (t3_ends rp n j t s) (ppc_edges_old rp n)).
+      { unfold ppc_edges_old. do 2 (apply in_or_app; right). apply in_or_app. left.
         apply in_flat_map. exists (j, t). split; auto. simpl. rewrite H0.
         destruct s as [|[|[|s]]]; simpl; auto; lia. }
-      unfold t3_ends in I3. rewrite O in I3. destruct (Nat.eqb s 0).
-      - now apply upath_edge.
-      - apply upath_sym. now apply upath_edge. }
+      unfold t3_ends in I3. rewrite O in I3.
+      assert (KE : forall x y, In (x, y) (ppc_edges_old rp n) ->
+                   ((x = L (NB (rp (t3_bus t s))) /\ y = L (NT3 j)) \/ (y = L (NB (rp (t3_bus t s))) /\ x = L (NT3 j))) ->
+                   In (x, y) (ppc_edges rp n)).
+      { intros x y Ixy [[-> ->]|[-> ->]]; unfold ppc_edges; apply filter_In; split; auto; simpl; now rewrite oos_rp, Oo. }
+      destruct (Nat.eqb s 0).
+      - apply upath_edge. apply KE; auto.
+      - apply upath_sym. apply upath_edge. apply KE; auto. }
     eapply upath_trans; [apply W; eauto|]. apply upath_sym. apply W; auto.
   - destruct (s_zpos s) eqn:Z.
-    + apply upath_edge. unfold ppc_edges. do 5 (apply in_or_app; right).
+    + apply upath_edge. eapply keep_edge; eauto; try (now apply bus_is_not_oos).
+      unfold ppc_edges_old. do 5 (apply in_or_app; right).
       apply in_flat_map. exists s. split; auto. unfold zswitch. rewrite H0, H1, H2, H3, Z. simpl. now left.
     + assert (E : rp (s_bus s) = rp (s_el s)).
       { apply Hrp. apply upath_edge. unfold fuse_edges, fuse_edges_of. apply in_flat_map. exists s. split; auto.
@@ -297,7 +319,7 @@ End PF.
 
 (* ------------------------------------------------------------------ T1: NaN <=> not SuppliedPF *)
 Theorem nan_iff_not_supplied_pf n b : nan_bus n b = false <-> (bus_is n b = true /\ SuppliedPF n b).
-Proof. unfold nan_bus. apply nan_with_iff. apply rep_iff_fused. Qed.
+Proof. unfold nan_bus. apply nan_with_iff; [apply rep_iff_fused|apply rep_idem]. Qed.
 
 (* ------------------------------------------------------------------ generic facts about SuppliedBy *)
 Lemma supplied_ok lk ok slack b : SuppliedBy lk ok slack b -> ok b.
@@ -342,16 +364,14 @@ Proof.
   unfold bus_is, bus_known. intros H. apply existsb_exists in H. destruct H as [r [I H]].
   apply existsb_exists. exists r. split; auto. apply andb_prop in H. tauto.
 Qed.
-Lemma bus_is_not_oos n b : bus_is n b = true -> bus_oos n b = false.
-Proof. unfold bus_oos. intros ->. apply andb_false_r. Qed.
 Lemma known_not_oos_is n b : bus_known n b = true -> bus_oos n b = false -> bus_is n b = true.
 Proof. unfold bus_oos. intros ->. simpl. intros H. now apply negb_false_iff in H. Qed.
 
 (* ------------------------------------------------------------------ Supplied -> SuppliedPF (always) *)
 Lemma link_link_pf n u v : link n u v -> bus_is n u = true -> bus_is n v = true -> link_pf n u v.
 Proof.
-  intros K Hu Hv. destruct K.
-  - apply LP_line; auto. rewrite (bus_is_not_oos _ _ Hu), (bus_is_not_oos _ _ Hv). reflexivity.
+  intros K Hu Hv. pose proof (bus_is_not_oos _ _ Hu) as Ou. pose proof (bus_is_not_oos _ _ Hv) as Ov. destruct K.
+  - now apply LP_line.
   - now apply LP_trafo.
   - now apply LP_imp.
   - apply LP_t3; auto.
@@ -376,9 +396,9 @@ Hypothesis Dt : t3_distinct n = true.
 
 Lemma G_parts :
   (forall d, In d (dclines n) -> r_is d = false) /\
-  (forall t, In t (trafos n) -> r_is t = true -> bus_is n (r_f t) = true /\ bus_is n (r_t t) = true) /\
-  (forall t, In t (imps n) -> r_is t = true -> bus_is n (r_f t) = true /\ bus_is n (r_t t) = true) /\
-  (forall t, In t (trafo3ws n) -> t_is t = true -> forall s, bus_is n (t3_bus t s) = true) /\
+  (forall t, In t (trafos n) -> r_is t = true -> bus_known n (r_f t) = true /\ bus_known n (r_t t) = true) /\
+  (forall t, In t (imps n) -> r_is t = true -> bus_known n (r_f t) = true /\ bus_known n (r_t t) = true) /\
+  (forall t, In t (trafo3ws n) -> t_is t = true -> forall s, bus_known n (t3_bus t s) = true) /\
   (forall l, In l (lines n) -> r_is l = true -> bus_known n (r_f l) = true /\ bus_known n (r_t l) = true) /\
   (forall s, In s (switches n) -> s_et s = ETb -> s_closed s = true -> bus_known n (s_bus s) = true /\ bus_known n (s_el s) = true).
 Proof.
@@ -398,17 +418,15 @@ Proof.
   - intros w I E C. specialize (Gsw w I). rewrite E, C in Gsw. simpl in Gsw. apply andb_prop in Gsw. tauto.
 Qed.
 
-(* a power-flow link out of an in-service bus is a link of the property text into an in-service bus *)
-Lemma link_pf_link u v : link_pf n u v -> (bus_is n u = true \/ bus_is n v = true) ->
-  link n u v /\ bus_is n u = true /\ bus_is n v = true.
+(* a power-flow link is a link of the property text between in-service buses *)
+Lemma link_pf_link u v : link_pf n u v -> link n u v /\ bus_is n u = true /\ bus_is n v = true.
 Proof.
   destruct G_parts as [Gd [Gt [Gi [G3 [Gl Gs]]]]].
-  intros K O. destruct K.
-  - destruct (Gl l H H0) as [Kf Kt]. split; [now apply LK_line|].
-    destruct O as [O|O]; pose proof (bus_is_not_oos _ _ O) as N; split; auto; apply known_not_oos_is; auto; congruence.
-  - destruct (Gt t H H0). split; auto. now apply LK_trafo.
-  - destruct (Gi i H H0). split; auto. now apply LK_imp.
-  - split; [|split; apply G3; auto]. apply LK_t3; auto.
+  intros K. destruct K.
+  - destruct (Gl l H H0). split; [now apply LK_line|]. split; now apply known_not_oos_is.
+  - destruct (Gt t H H0). split; [now apply LK_trafo|]. split; now apply known_not_oos_is.
+  - destruct (Gi i H H0). split; [now apply LK_imp|]. split; now apply known_not_oos_is.
+  - split; [|split; apply known_not_oos_is; auto]. apply LK_t3; auto.
     + destruct (open_t3 n (t_id t) (t3_bus t s1)) eqn:E; auto. apply open_t3_open_pf in E; auto. congruence.
     + destruct (open_t3 n (t_id t) (t3_bus t s2)) eqn:E; auto. apply open_t3_open_pf in E; auto. congruence.
   - split; auto. now apply LK_sw.
@@ -422,8 +440,8 @@ Proof.
     + now rewrite <- E.
   - pose proof (supplied_ok _ _ _ _ IH) as Ou. simpl in Ou.
     destruct K as [K|K].
-    + destruct (link_pf_link u v K (or_introl Ou)) as [K' [_ Ov]]. eapply SB_link; eauto.
-    + destruct (link_pf_link v u K (or_intror Ou)) as [K' [Ov _]]. eapply SB_link; eauto.
+    + destruct (link_pf_link u v K) as [K' [_ Ov]]. eapply SB_link; eauto.
+    + destruct (link_pf_link v u K) as [K' [Ov _]]. eapply SB_link; eauto.
 Qed.
 End Guard.
 
@@ -576,9 +594,9 @@ Lemma link_known u v : link n u v -> bus_known n u = true /\ bus_known n v = tru
 Proof.
   destruct (G_parts n G) as [Gd [Gt [Gi [G3 [Gl Gs]]]]]. intros K. destruct K.
   - now apply Gl.
-  - destruct (Gt t H H0). split; now apply bus_is_known.
-  - destruct (Gi i H H0). split; now apply bus_is_known.
-  - split; apply bus_is_known; now apply G3.
+  - now apply Gt.
+  - now apply Gi.
+  - split; now apply G3.
   - now apply Gs.
 Qed.
 
@@ -628,8 +646,9 @@ Theorem topo_eq_pf_refuted :
   exists n b, bus_is n b = true /\ nan_bus n b = true /\ ~ In b (topo_unsupplied n).
 Proof. exists w_dcline, 2. repeat split; try (vm_compute; reflexivity). vm_compute. tauto. Qed.
 
-Theorem pf_isolated_iff_supplied_refuted :
-  exists n b, bus_is n b = true /\ nan_bus n b = false /\ ~ Supplied n b.
+(* before the repair "the connectivity check does not walk through out-of-service buses" (regression witness) *)
+Theorem pf_isolated_iff_supplied_old_refuted :
+  exists n b, bus_is n b = true /\ nan_bus_old n b = false /\ ~ Supplied n b.
 Proof.
   exists w_bridge, 3. repeat split; try (vm_compute; reflexivity).
   intros S. apply supplied_suppliedT in S.
@@ -656,13 +675,13 @@ Proof. vm_compute. repeat split. Qed.
 
 (* ------------------------------------------------------------------ zero power of dead ext_grids *)
 From Coq Require Import QArith.
-(* an ext_grid that is not among the in-service elements reports exactly zero — provided some ext_grid row is in service *)
-Theorem ext_grid_zero_partial egs k e : G07eg egs = true -> nth_error egs k = Some e -> snd (fst e) = false ->
+(* an ext_grid that is not among the in-service elements reports exactly zero *)
+Theorem ext_grid_zero egs k e : nth_error egs k = Some e -> snd (fst e) = false ->
   nth_error (res_ext_grid_p egs) k = Some (Some 0%Q).
 Proof.
-  unfold G07eg, res_ext_grid_p. intros -> H D. rewrite nth_error_map, H. simpl. now rewrite D.
+  unfold res_ext_grid_p. intros H D. rewrite nth_error_map, H. simpl. now rewrite D.
 Qed.
-(* otherwise it reports NaN (the table keeps its NaN initialisation) *)
-Theorem ext_grid_zero_refuted :
-  exists egs k e, nth_error egs k = Some e /\ snd (fst e) = false /\ nth_error (res_ext_grid_p egs) k = Some None.
+(* before the repair it reported NaN when no ext_grid row was in service (regression witness) *)
+Theorem ext_grid_zero_old_refuted :
+  exists egs k e, nth_error egs k = Some e /\ snd (fst e) = false /\ nth_error (res_ext_grid_p_old egs) k = Some None.
 Proof. exists [(false, false, 0%Q)], 0%nat, (false, false, 0%Q). repeat split. Qed.
